@@ -122,7 +122,7 @@ fn commit_scenario<const N: usize>(r: [Round; N], j: usize) {
     };
     let res = run_ready(env.core.commit(head));
     assert!(res.is_ok());
-    assert!(env.core.last_committed_round == r[N - 1]);
+    assert!(env.core.last_committed_round == r[N - 1], "C02 watermark last_committed_round is not the round of the newest delivered block");
     let mut k = j;
     while k < N {
         let exp = match k {
@@ -303,7 +303,7 @@ fn process_block_check2(b0r: Round, b1r: Round, lc: Round, with_tc: bool, cur_ro
     assert!(pb.env.core.round == pb.pre_round, "C10 round changed by process_block");
     assert!(pb.env.core.high_qc.round == pb.pre_hq, "C10 high_qc changed by process_block");
     // the block is stored once
-    assert!(pb.env.store.writes() == 1 && pb.env.store.len() == 3);
+    assert!(pb.env.store.writes() == 1 && pb.env.store.len() == 3, "verif-script: process_block is expected to store the block exactly once");
     vwit::cover!(may_vote);
     vwit::cover!(!may_vote && r == pb.pre_round);
     std::mem::forget(res);
@@ -424,7 +424,7 @@ fn c02_commit_sym2() {
     env.core.last_committed_round = lc;
     let res = run_ready(env.core.commit(b1.clone()));
     assert!(res.is_ok());
-    assert!(env.core.last_committed_round == r1);
+    assert!(env.core.last_committed_round == r1, "C02 watermark last_committed_round is not the round of the newest delivered block");
     if j == 0 {
         let d = env.rx_commit.try_pop();
         assert!(d.is_some(), "C02 committed block not delivered");
